@@ -6,6 +6,7 @@ import (
 	"go/constant"
 	"go/token"
 	"go/types"
+	"strings"
 )
 
 type valOut struct {
@@ -486,7 +487,7 @@ func (e *Engine) mapPath(x ast.Expr, v *Val) string {
 			return "g:" + obj.Name()
 		}
 	}
-	if v.Kind == KField || v.Kind == KGlobal || v.Kind == KAlloc && v.Field != nil && v.Path != "" {
+	if v.Kind == KField || v.Kind == KGlobal || v.Kind == KAlloc && v.Path != "" && (v.Field != nil || strings.HasPrefix(v.Path, "g:")) {
 		return v.Path
 	}
 	return v.Loc()
